@@ -39,7 +39,7 @@ func (b Bytes) Unquote() Bytes {
 func (b Bytes) TrimSquareBrackets() Bytes {
 	lastCharIndex := len(b) - 1
 	if lastCharIndex > 0 && b[0] == '[' && b[lastCharIndex] == ']' {
-		return b[1:lastCharIndex]
+		return b[1:lastCharIndex:lastCharIndex]
 	}
 	return b
 }
@@ -60,7 +60,7 @@ func (b Bytes) TrimSpaces() Bytes {
 	for ; right > 0 && IsBlank(b[right]); right-- {
 	}
 
-	return b[left : right+1]
+	return b[left : right+1 : right+1]
 }
 
 func (b Bytes) TrimSpacesFromLeft() Bytes {
